@@ -14,6 +14,16 @@ S2C: every finished tree of the bounded machine is built from the real lena clas
 observable is compared with the expectation TLC printed for it.  C2S: seeded random trees (more
 tokens, larger alphabet) are built, observed and validated by TLC.
 
+Three more dimensions of the quantifier (families F8, F9, F10; c2s draws them at random):
+  * a key that the prefix sets to a plain value and a formatting field uses as a dictionary
+    ("kd.ke" after SetContext("kd", 1)) is as unresolved as a missing key;
+  * the values that are run through the pipeline may carry static keys in their run-time context
+    (nested ones too): what MakeFilename / UpdateContextFromStatic hold is the same after every
+    value (operational run OpRoot in the machine, defect switch MFRunCopies);
+  * the program is executed a second time (action Again: all objects constructed anew) while the
+    cache files of the first execution exist (variable disk; Split.__init__ asks alter_sequence,
+    defect switch AlterApplied): every observable is the same as in the first execution.
+
 The statement leaves open how a Split branch that is a bare fill/compute element (no static
 context of its own) counts; the specification enumerates the three readings (Policies) and a tree is
 accepted when one of them explains everything observed on it.
@@ -58,47 +68,72 @@ def replay(ctx, recs, stats):
     """Build every exported tree with the real classes and compare all observables."""
     groups = collections.OrderedDict()
     for r in recs:
-        groups.setdefault(core.canon([r["els"], r.get("peek", 0)]), []).append(r)
+        groups.setdefault(core.canon([r["els"], r.get("peek", 0), r.get("vin"), r.get("gens", 1)]), []).append(r)
     for alts in groups.values():
         els = alts[0]["els"]
         peek = alts[0].get("peek", 0)
+        vin = sl.vin_of(alts[0])
+        gens = alts[0].get("gens", 1)
         variants = (False, True) if has_tuple_variant(els) else (False,)
         for tuples in variants:
-            try:
-                objs = sl.build(els, tuples, peek)
-            except sl.ConstructFailed as cf:      # only what a lena constructor raised
-                ctx.violation("construct:raised:%s" % exc_name(cf.exc),
-                              {"tree": sl.sig(els), "tuples": tuples, "exception": repr(cf.exc)})
-                continue
-            obs, rt, changed = sl.observe(els, objs)
+            # gens = 2: the program is executed a second time (all objects constructed anew) while
+            # the files the first execution wrote are there; the expectation is the same
+            for g in range(1, gens + 1):
+                sfx = "" if g == 1 else ":second-execution"
+                # the files the model's first execution leaves (disk) are there
+                files = ["".join(f) for f in alts[0].get("files", ())]
+                if g == 2 and files and all(os.path.isfile(f) for f in files):
+                    stats["warm_executions"] += 1
+                try:
+                    objs = sl.build(els, tuples, peek, vin)
+                except sl.ConstructFailed as cf:      # only what a lena constructor raised
+                    ctx.violation("construct:raised:%s%s" % (exc_name(cf.exc), sfx),
+                                  {"tree": sl.sig(els), "tuples": tuples, "exception": repr(cf.exc)})
+                    break
+                obs, rt, changed = sl.observe(els, objs, vin=vin)
+                par = sl.parents(els)
+                for (i, before, after) in changed:
+                    pk = els[par[i] - 1]["k"] if i in par else "root"
+                    ctx.violation("%s:changed-by-run:in-%s%s" % (els[i - 1]["k"], pk, sfx),
+                                  {"tree": sl.sig(els), "element": i, "before_run": before, "after_run": after,
+                                   "runtime_contexts_sent": vin})
+                results = [sl.compare(els, a, obs, rt) for a in alts]
+                ctx.case(["tree", els, tuples, peek, vin, g], nontrivial=len(els) > 1)
+                stats["observations"] += sum(1 for o in obs if o and not o.get("skip")) + 1
+                good = [j for j, (bad, _) in enumerate(results) if not bad]
+                if good:
+                    if len(alts) > 1:
+                        stats["policy_trees"] += 1
+                        pols = sorted(alts[j]["pol"] for j in good)
+                        stats["policies_matched"][",".join(pols)] += 1
+                    stats["other_key_named"] += results[good[0]][1]
+                    continue
+                for (k, what, pk, i, want, got) in results[0][0]:
+                    ctx.violation("%s:%s:in-%s%s" % (k, what, pk, sfx),
+                                  {"tree": sl.sig(els), "element": i, "branches_as_tuples": tuples,
+                                   "context_requested_after_building_node": peek,
+                                   "runtime_contexts_sent": vin, "execution": g,
+                                   "expected": want, "observed": got,
+                                   "policy": alts[0]["pol"]})
             _clean_cwd()
-            par = sl.parents(els)
-            for (i, before, after) in changed:
-                pk = els[par[i] - 1]["k"] if i in par else "root"
-                ctx.violation("%s:changed-by-run:in-%s" % (els[i - 1]["k"], pk),
-                              {"tree": sl.sig(els), "element": i, "before_run": before, "after_run": after})
-            results = [sl.compare(els, a, obs, rt) for a in alts]
-            ctx.case(["tree", els, tuples, peek], nontrivial=len(els) > 1)
-            stats["observations"] += sum(1 for o in obs if o and not o.get("skip")) + 1
-            good = [j for j, (bad, _) in enumerate(results) if not bad]
-            if good:
-                if len(alts) > 1:
-                    stats["policy_trees"] += 1
-                    pols = sorted(alts[j]["pol"] for j in good)
-                    stats["policies_matched"][",".join(pols)] += 1
-                stats["other_key_named"] += results[good[0]][1]
-                continue
-            for (k, what, pk, i, want, got) in results[0][0]:
-                ctx.violation("%s:%s:in-%s" % (k, what, pk),
-                              {"tree": sl.sig(els), "element": i, "branches_as_tuples": tuples,
-                               "context_requested_after_building_node": peek,
-                               "expected": want, "observed": got,
-                               "policy": alts[0]["pol"]})
     return len(groups)
 
 
 # ---------------------------------------------------------------------------- C2S
-KEYS = (["ka"], ["kb"], ["kc"], ["kd", "ke"], ["kd", "kf"], ["output", "kx"], ["rt"])
+KEYS = (["ka"], ["kb"], ["kc"], ["kd", "ke"], ["kd", "kf"], ["output", "kx"], ["rt"], ["kd"])
+# run-time contexts of the two incoming values: by default no static key; values that carry a
+# nested static key (same leaf / a sibling leaf), a plain static key, in the first or in both
+VINS = (
+    [{"rt": 0}, {"rt": 1}],
+    [{"rt": 0, "kd": {"ke": 5}}, {"rt": 1}],
+    [{"rt": 0, "kd": {"kf": 5}}, {"rt": 1}],
+    [{"rt": 0, "ka": 5}, {"rt": 1}],
+    [{"rt": 0, "kd": {"ke": 5}, "kb": 5}, {"rt": 1, "kd": {"kf": 5}}],
+    [{"rt": 0, "output": {"kx": 5}}, {"rt": 1, "kc": 5}],
+)
+# (not drawn: a run-time plain value under a key that is a static dictionary - if the static
+# dictionary is an empty one left by the intersection, UpdateContextFromStatic replaces the value
+# by it: the statement does not say whether empty nested dictionaries are kept)
 
 
 def _lit(ch):
@@ -278,6 +313,29 @@ def pattern_trees():
                 inner = add("seq", ch)
                 add(outer, [first, inner])
                 out.append(els)
+    # a Sequence branch of a Split with SetContext before a Cache and a consumer after it, under a
+    # non-empty outer prefix: executed twice by c2s (the second execution finds the cache file)
+    for outer in ("seq", "src"):
+        for fname in (_fmt(_lit("c"), _lit(".pkl")), _fmt(_fld(["kb"]), _lit(".pkl"))):
+            for cons in consumers:
+                for sibling in (False, True):
+                    els = []
+
+                    def add(k, ch=(), p=(), v=NOTPL):
+                        els.append({"k": k, "p": list(p), "v": v, "ch": list(ch)})
+                        return len(els)
+                    first = add("set", p=["ka"], v={"t": "int", "toks": [_lit("1")]})
+                    ch = [add("set", p=["kb"], v={"t": "int", "toks": [_lit("2")]}), add("cache", v=fname)]
+                    if cons:
+                        ch.append(add(cons[0], v=cons[1]))
+                    if cons and cons[0] == "cache":
+                        continue
+                    brs = [add("seq", ch)]
+                    if sibling:
+                        brs.append(add("seq", [add("set", p=["kb"], v={"t": "int", "toks": [_lit("2")]})]))
+                    sp = add("split", brs)
+                    add(outer, [first, sp, add("store")])
+                    out.append(els)
     # a Source whose first element (a Source, or a Split of Sources) exports static context
     for gen in ("src", "split"):
         for lead in (False, True):
@@ -315,21 +373,27 @@ def c2s(ctx, n, max_tok, stats):
         peek = rnd.choice(nodes) if nodes and rnd.random() < 0.5 else 0
         if j >= n:
             peek = nodes[(j - n) % len(nodes)]
-        try:
-            objs = sl.build(els, tuples, peek)
-        except sl.ConstructFailed as cf:          # only what a lena constructor raised
-            ctx.violation("construct:raised:%s" % exc_name(cf.exc),
-                          {"tree": sl.sig(els), "tuples": tuples, "exception": repr(cf.exc)})
-            continue
-        obs, rt, changed = sl.observe(els, objs)
+        vin = VINS[0] if rnd.random() < 0.4 else rnd.choice(VINS)
+        # a pipeline with a Cache is executed twice: the second execution (new objects) finds the
+        # file of the first
+        gens = 2 if sum(1 for e in els if e["k"] == "cache") == 1 else 1
+        for g in range(1, gens + 1):
+            sfx = "" if g == 1 else ":second-execution"
+            try:
+                objs = sl.build(els, tuples, peek, vin)
+            except sl.ConstructFailed as cf:          # only what a lena constructor raised
+                ctx.violation("construct:raised:%s%s" % (exc_name(cf.exc), sfx),
+                              {"tree": sl.sig(els), "tuples": tuples, "exception": repr(cf.exc)})
+                break
+            obs, rt, changed = sl.observe(els, objs, vin=vin)
+            raised = [(i, o) for i, o in enumerate(obs, 1) if o and o.get("raised")]
+            if raised:
+                i, o = raised[0]
+                ctx.violation("c2s:%s:observation-raised-%s%s" % (els[i - 1]["k"], o["raised"], sfx),
+                              {"tree": sl.sig(els), "element": i, "message": o.get("msg")})
+                break
+            trace.append(sl.record(els, obs, rt, stable=not changed, vin=vin, gen=g))
         _clean_cwd()
-        raised = [(i, o) for i, o in enumerate(obs, 1) if o and o.get("raised")]
-        if raised:
-            i, o = raised[0]
-            ctx.violation("c2s:%s:observation-raised-%s" % (els[i - 1]["k"], o["raised"]),
-                          {"tree": sl.sig(els), "element": i, "message": o.get("msg")})
-            continue
-        trace.append(sl.record(els, obs, rt, stable=not changed))
     # validate; a rejected record is localised (which observation) and validation goes on
     # behind it (at most 3 / 8 times, each rejection is a violation)
     accepted = []
@@ -354,7 +418,7 @@ def c2s(ctx, n, max_tok, stats):
         if a2 < len(els):
             i = a2 + 1
             pk = els[par[i] - 1]["k"] if i in par else "root"
-            key = "c2s:%s:rejected:in-%s" % (els[i - 1]["k"], pk)
+            key = "c2s:%s:rejected:in-%s%s" % (els[i - 1]["k"], pk, "" if bad.get("gen", 1) == 1 else ":second-execution")
             detail = {"tree": sl.sig(els), "element": i, "observed": bad["obs"][i - 1]}
         else:
             key = "c2s:runtime:rejected:%s" % els[-1]["k"]
@@ -397,10 +461,11 @@ def demo_defect_models(ctx):
             "%s: TLC violates SeenIsExpected after %d states" % (what, res.distinct))
 
 
-def demo_switch(ctx, cfg, what):
+def demo_switch(ctx, cfg, what, expected=("SeenIsExpected", "PeekIsPure")):
     res = ctx.mc("StaticContext", cfg, expect_violation="report")
-    if res.exit == 0 or res.violated not in ("SeenIsExpected", "PeekIsPure"):
-        raise core.MachineryError("defect model %s does not violate SeenIsExpected" % cfg)
+    if res.exit == 0 or res.violated not in expected:
+        raise core.MachineryError("defect model %s does not violate %s (exit %s, %s)" % (
+            cfg, "/".join(expected), res.exit, res.violated))
     ctx.extra.setdefault("design_level_counterexamples", []).append(
         "%s: TLC violates %s after %d states" % (what, res.violated, res.distinct))
 
@@ -449,10 +514,39 @@ class Background(object):
             raise self.exc
 
 
+def exports_ahead(ctx, cfgs, ahead):
+    """Yield (cfg, records) in the order of *cfgs*; up to *ahead* TLC exports are running or waiting
+    to be consumed at any time."""
+    todo = list(cfgs)
+    pending = collections.deque()
+
+    def start():
+        if not todo:
+            return
+        cfg = todo.pop(0)
+        box = {}
+        pending.append((cfg, box, Background(
+            [lambda: box.update(recs=ctx.export("StaticContext", cfg, min_records=1000))])))
+
+    for _ in range(ahead):
+        start()
+    while pending:
+        cfg, box, th = pending.popleft()
+        th.join()
+        start()
+        yield cfg, box.pop("recs")
+
+
 def _run(ctx):
     tag = "thorough" if ctx.thorough else "quick"
-    ctx.assume("keys ka kb kc kd.ke kd.kf output.kx rt; values 0, 1, 2, 5, '1', '', None and formatting strings "
-               "made of one-character literals; formatting fields never name a dictionary-valued key")
+    ctx.assume("keys ka kb kc kd kd.ke kd.kf output.kx rt; values 0, 1, 2, 5, '1', '', None and formatting strings "
+               "made of one-character literals; formatting fields never name a dictionary-valued key (they do "
+               "name keys below a plain-valued one)")
+    ctx.assume("run-time contexts of the incoming values: {rt: 0}, {rt: 1}, optionally with static keys (kd.ke, kd.kf, "
+               "ka, kb, kc, output.kx = 5; never a plain value under a static dictionary key); where a nested run-time dictionary meets a nested static one in "
+               "MakeFilename, replacing it and merging it recursively are both accepted")
+    ctx.assume("second execution: same program text, same input values, working directory left as the first "
+               "execution left it; pipelines with two Caches are not run")
     ctx.assume("empty nested dictionaries are removed before contexts are compared")
     ctx.assume("after the first unresolved formatting key (document order) nothing is compared except "
                "that _get_context raises LenaKeyError naming a key that is unresolvable below that node")
@@ -460,18 +554,24 @@ def _run(ctx):
                "{} if no other branch; ignored and transparent; counts with the copy it was handed)")
     stats = {"observations": 0, "policy_trees": 0, "policies_matched": collections.Counter(),
              "other_key_named": 0, "c2s_rejected": 0, "c2s_unvalidated": 0, "trees_by_family": collections.Counter(),
-             "peeked": 0}
+             "peeked": 0, "warm_executions": 0, "other_inputs": 0}
     kinds_seen = set()
     # ---- design level (background thread): vacuity guard with -coverage on the 3-token family
     # (coverage slows TLC several times), all families of the tier without it, defect models
     jobs = [
             lambda: ctx.mc("StaticContext", "StaticContext_%s.cfg" % tag),
-            lambda: demo_defect_models(ctx)]
+            lambda: demo_defect_models(ctx),
+            # MakeFilename.__call__ merging the run-time context into the dictionaries it holds;
+            # alter_sequence really replacing a Split branch that has a filled Cache
+            lambda: demo_switch(ctx, "StaticContext_mfshare.cfg", "MFRunCopies=FALSE", ("RunKeepsStatic",)),
+            lambda: demo_switch(ctx, "StaticContext_alter.cfg", "AlterApplied=TRUE", ("SeenIsExpected",))]
     if ctx.thorough:
-        jobs.append(lambda: ctx.mc("StaticContext", "StaticContext_sim.cfg", simulate=2000, depth=24))
+        jobs.append(lambda: ctx.mc("StaticContext", "StaticContext_sim.cfg", simulate=2000, depth=44))
         jobs.append(lambda: demo_abort(ctx))
         jobs.append(lambda: demo_switch(ctx, "StaticContext_cache.cfg", "SplitCachesExport=TRUE"))
         jobs.append(lambda: demo_switch(ctx, "StaticContext_noskip.cfg", "SkipEmpty=FALSE"))
+        jobs.append(lambda: demo_switch(ctx, "StaticContext_noskip2.cfg", "SkipEmpty=FALSE (second execution: the "
+                                        "Source alter_sequence builds and drops)", ("SeenIsExpected",)))
         jobs.append(lambda: demo_switch(ctx, "StaticContext_norepass.cfg", "SrcFRepass=FALSE"))
     bg = Background(jobs)
     # ---- spec -> code (main thread)
@@ -480,11 +580,14 @@ def _run(ctx):
     os.makedirs(scratch)
     os.chdir(scratch)
     try:
-        exports = (["StaticContext_thorough_export_%s.cfg" % f for f in ("F1", "F2", "A", "B", "C")] if ctx.thorough
-                   else ["StaticContext_quick_export.cfg"])
-        for cfg in exports:
-            recs = ctx.export("StaticContext", cfg, min_records=1000)
+        exports = (["StaticContext_thorough_export_%s.cfg" % f for f in ("F1", "F2", "N", "A", "B", "C")] if ctx.thorough
+                   else ["StaticContext_quick_export.cfg", "StaticContext_quick_export_B.cfg",
+                         "StaticContext_new_export.cfg"])
+        # TLC exports with one worker (PrintT): several exports run side by side while the
+        # records of an earlier one are replayed
+        for cfg, recs in exports_ahead(ctx, exports, 2 if ctx.thorough else 3):
             for r in recs:
+                stats["other_inputs"] += int(sl.vin_of(r) != [dict(c) for c in sl.DEFAULT_VIN])
                 stats["trees_by_family"][r["fam"]] += 1
                 stats["peeked"] += int(r.get("peek", 0) != 0)
                 for e in r["els"]:
@@ -504,22 +607,27 @@ def _run(ctx):
     # kind of object and the "context requested before placement" step must occur
     want = set(["set", "store", "ucfs", "mf", "mfd", "mfe", "write", "cache", "data", "acc",
                 "seq", "src", "srcf", "split"])
-    if want - kinds_seen or not stats["peeked"] or len(stats["trees_by_family"]) < (10 if ctx.thorough else 9):
-        raise core.MachineryError("vacuous model: kinds missing %s, peeked %d, families %s" % (
-            sorted(want - kinds_seen), stats["peeked"], sorted(stats["trees_by_family"])))
+    if (want - kinds_seen or not stats["peeked"] or len(stats["trees_by_family"]) < (14 if ctx.thorough else 12)
+            or not stats["warm_executions"] or not stats["other_inputs"]):
+        raise core.MachineryError("vacuous model: kinds missing %s, peeked %d, families %s, second executions "
+                                  "that found files %d, trees with run-time contexts carrying static keys %d" % (
+            sorted(want - kinds_seen), stats["peeked"], sorted(stats["trees_by_family"]),
+            stats["warm_executions"], stats["other_inputs"]))
     stats["policies_matched"] = dict(stats["policies_matched"])
     stats["trees_by_family"] = dict(stats["trees_by_family"])
     stats["coverage_downgraded"] = dict(sl.DOWNGRADED)
     ctx.extra["c13"] = stats
     return ctx.finish(
         rule="S2C: every finished tree of every family of the bounded machine (quick: A4 = <= 4 tokens over 11 "
-             "leaf kinds and every root kind, B5 = <= 5 tokens over 4 leaf kinds, focused families F1..F4 with "
-             "4-6 tokens; thorough: A5, B6, C7 and the focused families one token deeper), built from the real "
-             "classes in both spellings (Split branches as Sequence / tuple / bare element, Source callable first "
-             "/ after leading SetContext), every consumer / sequence observable compared before and after two "
-             "values are run through the root, run-time contexts compared; non-trivial = more than one object; "
-             "C2S: seeded random trees (<= 10 / 14 tokens, depth <= 3, 30 leaf kinds) validated by "
-             "Trace_StaticContext",
+             "leaf kinds and every root kind, B5 = <= 5 tokens over 4 leaf kinds, focused families F1..F7 with "
+             "4-6 tokens, F8 = plain value under a key used as a dictionary, F9 = x 3 (4) inputs whose run-time "
+             "contexts carry static keys, F10 = program executed twice with the cache files of the first "
+             "execution present; thorough: A5, B6, C7 and the focused families one token deeper), built from the "
+             "real classes in both spellings (Split branches as Sequence / tuple / bare element, Source callable "
+             "first / after leading SetContext), every consumer / sequence observable compared before and after "
+             "the values are run through the root, run-time contexts compared; non-trivial = more than one "
+             "object; C2S: seeded random trees (<= 10 / 14 tokens, depth <= 3, 31 leaf kinds, 6 inputs, trees "
+             "with one Cache executed twice) validated by Trace_StaticContext",
         exhaustive=True)
 
 
